@@ -18,13 +18,18 @@ def run(ctx):
         return int(m.group(1), 0) if m else None
     press = enum_val("TICKIT_MOUSEEV_PRESS")
     dstart = enum_val("TICKIT_MOUSEEV_DRAG_START")
+    # /repo commit 7a99ce0: _focus_gained tells the old branch also when win itself takes the focus
+    fg = re.search(r"static\s+void\s+_focus_gained\s*\([^)]*\)\s*\{(.*?)\n\}", win, re.S)
+    focus_repaired = bool(fg and re.search(r"if\s*\(\s*win->focused_child\s*&&\s*win->focused_child\s*!=\s*child\s*\)", fg.group(1))
+                          and re.search(r"if\s*\(\s*child\s*&&\s*win->is_focused\s*\)", fg.group(1)))
     b = lambda x: "true" if x else "false"
     body = "import Tickit.Model.WinInput\nnamespace Tickit.Gen.WinInputCfg\n"
     body += f"def cfg : Tickit.WinInput.Cfg := ⟨{b(snapshot)}, {b(counted)}, {b(shown)}⟩\n"
+    body += f"def focusLossRepaired : Bool := {b(focus_repaired)}\n"
     body += f"def savedNextLoops : Nat := {saved_next}\n"
     body += f"def mouseevPress : Int := {press if press is not None else 0}\n"
     body += f"def mouseevDragStart : Int := {dstart if dstart is not None else 0}\n"
     body += "end Tickit.Gen.WinInputCfg\n"
     write("WinInputCfg", body)
-    info["wininput"] = {"snapshot": snapshot, "counted": counted, "shown": shown, "saved_next_loops": saved_next,
+    info["wininput"] = {"snapshot": snapshot, "counted": counted, "shown": shown, "saved_next_loops": saved_next, "focus_loss_repaired": focus_repaired,
                         "TICKIT_MOUSEEV_PRESS": press, "TICKIT_MOUSEEV_DRAG_START": dstart}
